@@ -1259,7 +1259,7 @@ impl<D: TextDecorator> SubRenderer<D> {
     }
 
     /// Wrap links to width
-    pub fn fmt_links(&mut self, mut links: Vec<TaggedLine<D::Annotation>>) {
+    pub fn fmt_links(&mut self, mut links: Vec<TaggedLine<D::Annotation>>) -> Result<()> {
         for line in links.drain(..) {
             /* Hard wrap */
             let mut pos = 0;
@@ -1277,6 +1277,11 @@ impl<D: TextDecorator> SubRenderer<D> {
                     for c in s.chars() {
                         let c_width = UnicodeWidthChar::width(c).unwrap_or(0);
                         verif_hook!(tick("fmt_links"));
+                        if c_width > self.width && !self.options.allow_width_overflow {
+                            // E.g. a double-width character and a width of 1:
+                            // no line can hold it, as for body text.
+                            return Err(TooNarrow);
+                        }
                         if pos + c_width > self.width {
                             if !buf.is_empty() {
                                 wrapped_line.push_str(TaggedString {
@@ -1304,6 +1309,7 @@ impl<D: TextDecorator> SubRenderer<D> {
             }
             self.add_line(RenderLine::Text(wrapped_line));
         }
+        Ok(())
     }
 
     /// Returns a `Vec` of `TaggedLine`s with the rendered text.
